@@ -44,6 +44,23 @@ def deser(x):
     return tuple(deser(y) for y in x)
 
 
+def to_lib_variant(g, obj, k):
+    """the library object for an exact object, built in one of several legitimate ways (k selects): the plain constructor; a Plane from its
+    general form a x + b y + c z = d with a non-unit (a, b, c); a polygon / polyhedron / segment / half-line / line built elsewhere and moved
+    into place in place (the receiver of move() is used, not its return value)"""
+    kind = obj[0]
+    if k % 3 == 1 and kind == "Plane":
+        nn = obj[2]
+        return g.Plane(*([O.to_number(c, "float") for c in nn] + [O.to_number(O.dot(nn, obj[1]), "float")]))
+    if k % 3 == 2 and kind in ("Polygon", "Polyhedron", "Segment", "HalfLine", "Line", "Plane"):
+        v = (Fraction(3), Fraction(-2), Fraction(5, 2))
+        away = K.transform(obj, K.IDENTITY, O.scale(-1, v), 1)
+        o = O.to_lib(away, "float")
+        o.move(g.Vector(*[O.to_number(c, "float") for c in v]))
+        return o
+    return O.to_lib(obj, "float")
+
+
 def admitted(a, b, result):
     """the property's admission filter: every incidence exact or violated by a relative margin > 1e-3,
     no hashed quantity within 5e-13 of a rounding boundary of the 10-digit hash"""
@@ -97,8 +114,13 @@ def check_intersection_case(g, a, b, klass, acc, label, faces=False):
         acc.skipped += 1
         return
     acc.case(klass)
-    A, B = O.to_lib(a, "float"), O.to_lib(b, "float")
-    case = dict(a=ser(a), b=ser(b), label=label)
+    variant = acc.ev  # rotates through the ways of building the operands
+    try:
+        A, B = to_lib_variant(g, a, variant), to_lib_variant(g, b, variant // 3)
+    except Exception as e:
+        acc.fail(klass, "building the operands (variant %d) raised %r" % (variant, e), dict(a=ser(a), b=ser(b), label=label, variant=variant))
+        return
+    case = dict(a=ser(a), b=ser(b), label=label, variant=variant)
     forms = [("intersection(a, b)", lambda: g.intersection(A, B)), ("intersection(b, a)", lambda: g.intersection(B, A))]
     if a[0] != "Point":
         forms.append(("a.intersection(b)", lambda: A.intersection(B)))
@@ -130,6 +152,9 @@ def replay_intersection(case):
     g = load_repo()
     a, b = deser(case["a"]), deser(case["b"])
     acc = Acc()
+    acc.ev = int(case.get("variant", 0)) - 1 if case.get("variant") is not None else 0
+    if acc.ev < 0:
+        acc.ev = 0
     check_intersection_case(g, a, b, "replay", acc, case.get("label", ""))
     return dict(fails=bool(acc.failures), observed=acc.failures[:1], admitted=acc.ev > 0)
 
@@ -177,7 +202,11 @@ def check_membership_case(g, cont, x, klass, acc):
         acc.skipped += 1
         return
     acc.case(klass)
-    Cn, X = O.to_lib(cont, "float"), O.to_lib(x, "float")
+    try:
+        Cn, X = to_lib_variant(g, cont, acc.ev), to_lib_variant(g, x, acc.ev // 3)
+    except Exception as e:
+        acc.fail(klass, "building the operands raised %r" % (e,), dict(container=ser(cont), x=ser(x)))
+        return
     exp = O.contains(cont, x[1]) if x[0] == "Point" else O.contains_obj(cont, x)
     kind, val = _call(lambda: X in Cn)
     case = dict(container=ser(cont), x=ser(x))
